@@ -192,9 +192,10 @@ package transport
 // ---------------------------------------------------------------- SSE
 //@ trusted (*sseConnection).flush()
 //@ trusted (*sseConnection).keepAlive(w)
-//@ trusted (*sseConnection).resetTicker(d)
 //@ trusted writeJsonWithSSE(w, response)
 //@ trusted time.NewTicker(d) (t)
+//@   ensures t != nil
+//@   modifies nothing
 //@ trusted (*sync.Mutex).Lock()
 //@   nopanic
 //@   pure
@@ -202,6 +203,8 @@ package transport
 //@   nopanic
 //@   pure
 //@ func (SSE).Do [C03,C10,C05,C12]
+//@   stable sseConnection.keepAliveTicker
+//@   loop 1: invariant c != nil && (t.KeepAlivePingInterval > 0 ==> c.keepAliveTicker != nil)
 //@   ghost held = false
 //@   at `c.mu.Lock()` ghost held = true
 //@   at `c.mu.Unlock()` ghost held = false
@@ -502,6 +505,7 @@ package transport
 //@   replay wsInitPayload.go.tmpl for :ensures:#3@
 //@ trusted (*wsConnection).run()
 //@ trusted (*github.com/gorilla/websocket.Upgrader).Upgrade(w, r, h) (c, err)
+//@   ensures err == nil ==> c != nil
 //@ trusted (*github.com/gorilla/websocket.Conn).Subprotocol() (s)
 //@   pure
 //@ trusted (*Websocket).injectGraphQLWSSubprotocols()
@@ -510,7 +514,7 @@ package transport
 //@ func (Websocket).Do [C11,C10]
 //@   safe
 //@   requires r != nil && exec != nil && w != nil
-//@   stable wsConnection.exec wsConnection.active
+//@   stable wsConnection.exec wsConnection.active wsConnection.conn
 //@   ghost inited = false
 //@   at `conn.init()` ghost inited = callres0
 //@   at! `conn.run()` requires inited
@@ -549,8 +553,9 @@ package transport
 // ends), subscribe is only reached from a start message, stop cancels only the addressed operation.
 //@ trusted (*wsConnection).closeOnCancelStub()
 //@ func (*wsConnection).run [C11,C10]
+//@   stable wsConnection.keepAliveTicker wsConnection.pongOnlyTicker wsConnection.pingPongTicker wsConnection.conn
 //@   safe
-//@   requires c != nil && c.exec != nil && c.active != nil
+//@   requires c != nil && c.exec != nil && c.active != nil && c.conn != nil
 //@   stable wsConnection.exec wsConnection.active
 //@   ghost derived = nil
 //@   at `context.WithCancel(c.ctx)` ghost derived = callres0
@@ -571,9 +576,12 @@ package transport
 // SSE: the ResponseWriter is shared between the event loop and the keep-alive goroutine. Every write to it
 // (event, completion marker, ping) and every Flush happens while holding the connection mutex, so a ping can never
 // be spliced into an event. (ghost `held`: Lock sets it, Unlock clears it.)
+// (time.Ticker: Stop and Reset panic on a nil ticker, Reset also on a non-positive interval)
 //@ trusted (*time.Ticker).Stop()
+//@   requires recv != nil
 //@   modifies nothing
 //@ trusted (*time.Ticker).Reset(d)
+//@   requires recv != nil && d > 0
 //@   modifies nothing
 //@ trusted (context.Context).Done() (ch)
 //@   pure
@@ -593,7 +601,9 @@ package transport
 //@   ensures old(c.closed) ==> calls("dyn:f") == 0 && calls(Flush) == 0
 //@   runs f with held = true
 //@ func (*sseConnection).keepAlive [C12]
-//@   requires c != nil
+//@   stable sseConnection.keepAliveTicker
+//@   safe
+//@   requires c != nil && c.keepAliveTicker != nil
 //@   replay sseWrites.go.tmpl
 //@   ghost held = false
 //@   callsite Fprintf: requires held
@@ -617,6 +627,13 @@ package transport
 //@   at! `c.close()` requires held
 //@   ensures calls(Lock) == 1 && calls(Unlock) == 1 && calls(close) == 1
 //@   ensures c.closed
+// resetTicker: the ticker is touched only when it exists - for a positive interval (C12: ANY keep-alive interval)
+//@ func (*sseConnection).resetTicker [C12,C10]
+//@   requires c != nil && (interval > 0 ==> c.keepAliveTicker != nil)
+//@   safe
+//@   stable sseConnection.keepAliveTicker
+//@   replay sseNegativeKeepAlive.go.tmpl
+//@   ensures calls(Lock) == calls(Unlock)
 //@ func (*sseConnection).flush [C12]
 //@   safe
 //@   requires c != nil
@@ -784,3 +801,18 @@ package transport
 //@   safe
 //@   requires w != nil
 //@   at! `SendError(w, code, &gqlerror.Error{Message: fmt.Sprintf(format, args...)})` requires arg0 == w && arg1 == code
+
+// ---------------------------------------------------------------- C10/C11: the websocket ticker goroutines
+// Each is started by run() only after its ticker was created; none of gqlgen's own code on them can panic.
+//@ func (*wsConnection).keepAlive [C10,C11]
+//@   stable wsConnection.keepAliveTicker
+//@   requires c != nil && c.keepAliveTicker != nil
+//@   safe
+//@ func (*wsConnection).keepAlivePongOnly [C10,C11]
+//@   stable wsConnection.pongOnlyTicker
+//@   requires c != nil && c.pongOnlyTicker != nil
+//@   safe
+//@ func (*wsConnection).ping [C10,C11]
+//@   stable wsConnection.pingPongTicker wsConnection.conn
+//@   requires c != nil && c.pingPongTicker != nil && c.conn != nil
+//@   safe
